@@ -31,6 +31,9 @@ MARKUP_CORPUS = [
     'td[colspan=2 title]', 'p{a\nb}', 'div>{${1:one}\n${2:two}}', 'ul>li*2>{x$}', 'section>p+p^^^aside',
     '$', 'a$b', 'div$*3', 'ui:x', 'my-tag>my-item*2', 'a{b}>c{d}', 'div[]', 'div[ ]', "div['a' \"b\"]",
     'bq>p', 'str+em', 'p>span*4', 'div>span+em+strong+a', 'mn', 'hdr', 'ftr', 'adr', 'dlg', 'ol>li[data-i=$]*2',
+    'ul>li*6', 'div*4>p*3', '(a+b)*5', 'html[lang=${lang}]>head>meta[charset=${charset}]', 'p{${lang}-${locale}}',
+    'label>input[type=checkbox]', 'select>option[value=$]*3', 'input[type=radio checked.]', 'video>source+track',
+    'xsl:when[test]>xsl:variable[name=a select=b]{x}', 'wp[name=a select=b]>div',
 ]
 
 STYLESHEET_CORPUS = [
@@ -46,6 +49,8 @@ STYLESHEET_CORPUS = [
     'foo', 'foo-bar', 'foo10', 'xyz', 'm$10', 'p${1:10}', 'c#', '#f', '10', 'm10p20', 'mten', 'trf:r', 'p:10',
     'kmar', 'klh', 'bg:ov', 'bd-q', 'm-al', 'bgmul', 'm-a', 'pa', 'm10e20', 'ov-h', 'pos-a', 'd-n', 'fl-r', 'scale(2)', 'trf-scale(1.5)', 'bgc-rgb(0,0,0)',
     'fz12', 'fz1e', 'fs-i', 'fst', 'lts.1', 'wos2', 'tsh', 'to', 'colm2', 'colmg10', 'wido2', 'orp3',
+    'trf:scale(2)', 'trf-r(45)', 'trf:tx(10)', 'fna-sc(3)', 'fna:rotate(20)', 'gtx-r(3)', 'bgi-url(a.png)', 'animtf-cb(.2)',
+    'cola', 'cola-#0', 'stra', 'kdis-b', 'kdis', 'gtx', 'c:r(0,0,0)', 'bxsh-n', 'bd-n', 'fl-r!', 'kmar!',
 ]
 
 NUMDEF_STYLESHEET = ['zom', 'kmar', 'klh', 'kwid', 'kmm', 'ktop', 'zidx', 'zom+kmar', 'kmar+klh', 'kwid+zom', 'kmm+ktop']
